@@ -1,6 +1,7 @@
 import Driver.Proto
 import Driver.CmdFilter
 import Driver.CmdCtl
+import Driver.CmdLog
 open Lean Driver
 
 def dispatch (cmd : String) (j : Json) : R Json :=
@@ -9,6 +10,7 @@ def dispatch (cmd : String) (j : Json) : R Json :=
   | "filter" => cmdFilter j
   | "prop.filter" => cmdPropFilter j
   | "ctl.replay" => cmdCtlReplay j
+  | "log.run" => cmdLogRun j
   | _ => throw s!"unknown command '{cmd}'"
 
 def handleLine (line : String) : String :=
